@@ -17,7 +17,7 @@ MANIFEST = {
             "produce byte for byte the specified image for all four flag combinations; the first relocation of any built "
             "program (directly or after flatten, any base) never increases code_size(); the copy loop of JitRuntime::_add "
             "(sections in id order) installs exactly the copy_flattened_data image of the relocated state and never leaves "
-            "the span. The model is tied to the real code by running harness and Lean driver on the same operation lines; "
+            "the span; a reused holder (reinit, reset+init) carries exactly the table of a fresh one. The model is tied to the real code by running harness and Lean driver on the same operation lines; "
             "the Lean monitors (the predicates of the theorems) judge every answer of the real code.",
     "note": "Trusted: Lean kernel; Spec/Sections.lean as the meaning of layout/image; harness/driver/diff. The model follows the "
             "repaired code (fixes/C10-1..4.patch). Modelled: new_section, ensure/add address table, x86 call/jmp-abs emission, "
